@@ -236,6 +236,18 @@ def run(ctx) -> None:
         # the repository's own tests as one more workload for the contracts (vmon/contracts.py)
         from ..contracts_suite import run_repo_tests
         run_repo_tests(ctx, ['incomplete_cooperative/tests/test_gym.py', 'incomplete_cooperative/tests/test_icg_gym_linear.py'], 'env')
+        from ..contracts_suite import run_cli_under_contracts
+        cmds = []
+        for solver in ("greedy", "largest", "random", "greedy_worst"):
+            cmds.append(["--number-of-players", str(ctx.rng.choice([3, 4])), "--game-generator", ctx.rng.choice(["noisy_factory", "xos", "graph_cycle", "factory"]),
+                         "--game-class", ctx.rng.choice(["superadditive", "superadditive_cached"]), "--seed", str(ctx.rng.randint(0, 10**6)),
+                         "--unique-name", f"r{solver}", "--parallel-environments", "1", "--run-steps-limit", "3",
+                         "solve", "--solver", solver, "--solve-repetitions", "4"])
+        cmds.append(["--number-of-players", "3", "--game-generator", "noisy_factory", "--seed", "5", "--unique-name", "g", "--run-steps-limit", "2",
+                     "--parallel-environments", "1", "greedy", "--sampling-repetitions", "2"])
+        cmds.append(["--number-of-players", "3", "--game-generator", "xs", "--game-class", "sam_apx_10", "--seed", "7", "--unique-name", "b",
+                     "--run-steps-limit", "2", "--parallel-environments", "1", "best_states", "--sampling-repetitions", "2", "--eval-repetitions", "1"])
+        run_cli_under_contracts(ctx, cmds)
     rng = ctx.rng
     quick = ctx.tier == "quick"
     from itertools import permutations
@@ -292,6 +304,10 @@ def run(ctx) -> None:
 
 
 def replay(ctx, case) -> None:
+    if case.get("kind") == "cli-contracts":
+        from ..contracts_suite import run_cli_under_contracts
+        run_cli_under_contracts(ctx, [case["args"]], case["contracts"])
+        return
     if case.get("kind") == "repo-tests":
         from ..contracts_suite import run_repo_tests
         run_repo_tests(ctx, case["files"], case["contracts"])
